@@ -29,3 +29,6 @@ open EpgVerif.Props.C03
 #print axioms stepShift
 #print axioms diagVar_value
 #print axioms T_diag_partial_exact_nl
+#print axioms hessian_diag_exact
+#print axioms step1T
+#print axioms step1Shift
